@@ -397,4 +397,24 @@ theorem cleanup_removes (st : St) (m : Nat) (snapshot read : List Nat) :
   simp only [List.mem_filter] at hs
   simpa using hs.2
 
+instance (st : St) : Decidable (SidDet st) := by unfold SidDet; infer_instance
+instance (st : St) (m m' : Nat) : Decidable (AbsPrivate st m m') := by unfold AbsPrivate; infer_instance
+instance (st : St) (m : Nat) : Decidable (OneSpecPerValue st m) := by unfold OneSpecPerValue; infer_instance
+instance (st : St) (m : Nat) : Decidable (GroupReferenced st m) := by unfold GroupReferenced; infer_instance
+instance (st : St) : Decidable (NoEmptyIo st) := by unfold NoEmptyIo; infer_instance
+
+/-- two models, each with a csv inside its folder and a csv under an absolute path of its own -/
+def demo : St := run {} [.newModel, .newModel,
+  .newSpec 0 "S.a" ⟨false, "a.csv"⟩ false none 1, .newSpec 0 "S.b" ⟨true, "x/b.csv"⟩ false none 2,
+  .newSpec 1 "S.a" ⟨false, "a.csv"⟩ false none 3, .newSpec 1 "S.b" ⟨true, "y/b.csv"⟩ false none 4]
+
+/-- C18-absolute-io-shared: two models keep sheets in ONE external workbook -/
+def sharedPath : St := run {} [.newModel, .newModel,
+  .newSpec 0 "S.a" ⟨true, "x/book.xlsx"⟩ true (some "s0") 1,
+  .newSpec 1 "S.a" ⟨true, "x/book.xlsx"⟩ true (some "s1") 2]
+
+/-- the same object referenced from two models, with an external file -/
+def sharedValue : St := run {} [.newModel, .newModel,
+  .newSpec 0 "S.a" ⟨true, "x/a.csv"⟩ false none 1, .bind 1 "S.a" 1]
+
 end MxModel.IOSession
